@@ -88,11 +88,17 @@ claim('C11',
       'OptionHelper<int|double|std::string>::Parse and the whole BasicSolver::ParseOptionString, over an arbitrary '
       'NUL-terminated option text of any length: every read stays at or before the terminator (also for unterminated '
       'quotes), cursors only move forward, string values are built from in-range (pointer,length) pairs, the name buffer '
-      'is large enough. ParseOptionString is verified modularly against the contracts of the scanners and value parsers.',
+      'is large enough. ParseOptionString is verified modularly against the contracts of the scanners and value parsers, and '
+      'carries three clauses of the statement as assertions at every real call of the value parser: a query \'name=?\' (followed '
+      'by the end of the text or any white space) never reaches it, a flag that is given a value never reaches it (an error is '
+      'reported instead), an unknown name never reaches it. OptionHelper<int>::Parse hands on exactly the number strtol read or '
+      'raises an option error (no silent truncation). BasicSolver::ParseOptions parses the sources in the order mp_options, '
+      '<executable>_options or else <solver>_options, command line, the command line with FROM_COMMAND_LINE and in argument order.',
       'Trusted: CBMC, extractor, isspace as the C-locale predicate total on int, strtol/strtod never pass the first NUL, '
-      'FindOption/HandleUnknownOption/ReportError/Print as stubs. Not decided: faithfulness of values, synonym/wildcard '
-      'lookup, source order, echo, termination when HandleUnknownOption returns without consuming. Native replay is a '
-      'driver run on a given text under ASan, not generated from verifier traces.',
+      'FindOption/HandleUnknownOption/ReportError/Print/getenv as stubs, the computation of the executable-specific variable name '
+      '(std::filesystem) dropped. Not decided: synonym/wildcard lookup (FindOption: std::set / lambdas), echo, the quoted-string '
+      'value text, termination when HandleUnknownOption returns without consuming. Native replay: sweep of option texts, '
+      'queries, integer ranges and source combinations under ASan.',
       'DESIGN.md 4 C11')
 
 claim('C05',
